@@ -42,7 +42,7 @@ def cnf_text(shape, rng, sep='\n    '):
 
 
 SITES = ['rule', 'when_block', 'guard_block', 'type_block', 'filter', 'rule_when',
-         'param_call', 'param_call_msg', 'named_ref', 'named_ref_not', 'some_block']
+         'param_call', 'param_call_msg', 'named_ref', 'named_ref_not', 'some_block', 'when_block_cond', 'type_block_cond']
 
 
 def site_rule(site, name, body):
@@ -68,6 +68,11 @@ def site_rule(site, name, body):
         return 'rule dep_%s {\n    %s\n}\nrule %s {\n  not dep_%s\n}' % (name, body, name, name)
     if site == 'some_block':
         return 'rule %s {\n  some items[*] {\n    %s\n  }\n}' % (name, body)
+    if site == 'when_block_cond':
+        # the CNF is the condition of a when block whose body fails: not PASS => SKIP and no body evaluated
+        return 'rule %s {\n  when %s {\n    a !exists\n  }\n}' % (name, body)
+    if site == 'type_block_cond':
+        return 'rule %s {\n  AWS::X::Y when %s {\n    a !exists\n  }\n}' % (name, body)
     raise ValueError(site)
 
 
@@ -114,6 +119,12 @@ def observed(site, rule_rec):
     if site == 'some_block':
         w = find(rule_rec, 'BlockGuardCheck')
         return w[2], rule_st
+    if site == 'when_block_cond':
+        w = find(rule_rec, 'WhenCondition')
+        return w[1], rule_st
+    if site == 'type_block_cond':
+        w = find(rule_rec, 'TypeCondition')
+        return w[1], rule_st
 
 
 def expected_rule(site, st):
@@ -127,6 +138,8 @@ def expected_rule(site, st):
         return 'PASS' if st == 'PASS' else 'SKIP'
     if site == 'rule_when':
         return 'PASS' if st == 'PASS' else 'SKIP'
+    if site in ('when_block_cond', 'type_block_cond'):
+        return 'FAIL' if st == 'PASS' else 'SKIP'
 
 
 def exhaustive_cnf(ctx, max_lines, max_alts, per_file=400):
@@ -136,7 +149,7 @@ def exhaustive_cnf(ctx, max_lines, max_alts, per_file=400):
     for site in SITES:
         for k in range(0, len(shp), per_file):
             chunk = shp[k:k + per_file]
-            sep = '\n    ' if site not in ('filter', 'rule_when') else '\n      '
+            sep = '\n    ' if site not in ('filter', 'rule_when', 'when_block_cond', 'type_block_cond') else '\n      '
             text = '\n'.join(site_rule(site, 'r%d' % i, cnf_text(s, rng, sep)) for i, s in enumerate(chunk)) + '\n'
             pairs.append({'rules': text, 'data': json.dumps(DOC)})
             meta.append((site, chunk))
